@@ -594,6 +594,26 @@ func init() {
 					c.Add(Case{Line: line, Impl: impl, Key: key})
 				}
 			}
+			// fixed witnesses first: the two open findings (reported every run while they
+			// reproduce) and the repaired defect (must stay silent)
+			for _, w := range []struct {
+				stmts  []string
+				probes []string
+				args   []ugo.Object
+			}{
+				{[]string{"param ...x", "y := 2", "x"}, []string{"x", "y"}, []ugo.Object{ugo.Int(1), ugo.Int(2), ugo.Int(3)}},
+				{[]string{"1 + 1", "const c = 5"}, []string{"c"}, nil},
+				{[]string{"global g", "param (a, b)", "a"}, []string{"a", "b"}, []ugo.Object{ugo.Int(1), ugo.Int(2)}},
+				{[]string{"x := 1", "f := func() { x++; return x }", "x = 10", "f()"}, []string{"x", "f()"}, nil},
+			} {
+				es := &gen.EvalScript{Stmts: w.stmts, FailAt: -1, Probes: make([][]string, len(w.stmts))}
+				es.Probes[len(w.stmts)-1] = w.probes
+				batch := map[int]*batchRes{}
+				for m := uint64(0); m < 1<<uint(len(w.stmts)-1); m++ {
+					checkCut(c, evalCfg{noOpt: true, args: w.args}, es, m, batch)
+					checkCut(c, evalCfg{args: w.args}, es, m, batch)
+				}
+			}
 			for i := 0; i < nSmall; i++ {
 				run(8, true)
 			}
